@@ -23,12 +23,18 @@ let c20_logmw args =
         match String.split_on_char ',' rq with
         | [meth; host; uri; raddr; ops] ->
           let opl = List.filter (fun o -> o <> "") (String.split_on_char '.' ops) in
-          let rops = List.map (fun o -> if o = "w" then RWrite else RWHeader (z_of_string (String.sub o 1 (String.length o - 1)))) opl in
+          (* "z": a zero-length Write: the same operation for the model, rendered without a body *)
+          let rops = List.map (fun o -> if o = "w" || o = "z" then RWrite else RWHeader (z_of_string (String.sub o 1 (String.length o - 1)))) opl in
+          let wkinds = ref (List.filter (fun o -> o = "w" || o = "z") opl) in
           let code = finished_code rops in
           let id = host ^ uri in
           let (_, fw) = crw_run Z0 rops in
-          let client = String.concat "." (List.map (function
-              | RWHeader c -> "h" ^ string_of_z c | RWrite -> "w:body-" ^ id | RImplicit -> "?") fw) in
+          let client = String.concat "." (List.rev (List.fold_left (fun acc o -> (match o with
+              | RWHeader c -> "h" ^ string_of_z c
+              | RWrite -> (match !wkinds with
+                  | k :: t -> wkinds := t; if k = "z" then "w:" else "w:body-" ^ id
+                  | [] -> "w:?")
+              | RImplicit -> "?") :: acc) [] fw)) in
           let attrs = " host=" ^ host ^ " method=" ^ meth ^ " raddr=" ^ raddr ^ " request_uri=" ^ uri in
           "seen=" ^ meth ^ "," ^ host ^ "," ^ uri ^ "," ^ raddr ^ "," ^ id
           ^ " client=" ^ client
